@@ -180,6 +180,24 @@ def main():
             else:
                 ck.nontrivial(src)
 
+    # invocations nested inside the argument of another macro (their arguments are collected by the string-level scanner): empty arguments in every position
+    NDEFS = '#define ID(x) x\n#define LIST(...) < __VA_ARGS__ >\n#define PAIR(a, b) [a|b]\n#define CNT(a, ...) { a : __VA_OPT__(more) }\n'
+    for c_ in ['ID(LIST(p, ))', 'ID(LIST(, p))', 'ID(LIST(,))', 'ID(LIST())', 'ID(LIST( ))', 'ID(ID(LIST(p,)))', 'ID(PAIR(a, ))', 'ID(PAIR(, b))', 'ID(PAIR(,))', 'PAIR(LIST(p, ), LIST(, q))',
+               'ID(CNT(1, ))', 'ID(CNT(1))', 'ID(CNT(1, , ))', 'ID(CNT(, 2))', 'LIST(ID(), )', 'LIST(PAIR(a, ), )', 'ID(LIST(p, (q, )))', 'ID(LIST((p, ), ))', 'ID(LIST(p,\n ))', 'ID(\nPAIR(a,\n))']:
+        src = '%sint u = %s ;\n' % (NDEFS, c_)
+        g = run_gcc(wd, 'n.h', src)
+        ck.count()
+        ck.dist('nested-invocation-shapes')
+        if g is None:
+            ck.dist('rejected-by-gcc')
+            continue
+        i = run_impl(b, wd, 'n.h', src)
+        if i != g:
+            ck.spec_failure('nested-same-macro:inner-arguments-expanded-before-inner-call' if 'ID(ID(' in c_ else 'nested-invocation-shape', 'invocation nested in an argument, %r: %s' % (c_, first_diff(g, i)),
+                            {'kind': 'spec', 'files': {'m.h': src}, 'cmd': 'parse_file -E m.h   vs   gcc -E -P -x c++ -std=c++23 m.h', 'conforming': g, 'parse_file': i})
+        else:
+            ck.nontrivial(src)
+
     # ---------------- stream 3b: CPPManifest::stringify itself against the extracted state machine (proved = 6.10.3.2 on well-formed tokens) -----------
     L = b['lib']
     stool = vlib.harness(b, 'scan_tool', ['scan_tool.cxx'], libs=(), extra=[os.path.join(L, 'libcppParser.a'), os.path.join(L, 'libdtoolutil.a'), os.path.join(L, 'libdtoolbase.a')])
